@@ -1,3 +1,4 @@
+import Ebu.Spec.Flow
 import Ebu.Props.C03
 import Ebu.Spec.Conc
 import Ebu.Proofs.Conc
@@ -32,5 +33,13 @@ CURRENT source (fact table regenerated on every run): tickets are handed out wit
 atomic `ticket` step of M2 assumes -/
 theorem ticket_counters_locked : Ebu.Locks.Discipline Ebu.Generated.accessFacts = true :=
   Ebu.Props.C03.facts_discipline
+
+/-! ### obligations on the control flow of the CURRENT source (`Ebu/Generated/Flow.lean`, regenerated from /repo on every run) -/
+
+/-- OBLIGATION: the ticket is taken by the publisher (in dispatch order, before `go`), the turn is awaited inside the goroutine before the handler call, and released by a `defer` registered right after -/
+theorem flow_ticket_discipline : Ebu.Flow.ticketDiscipline = true := by decide +kernel
+
+/-- OBLIGATION: the Sequential mutex is taken in `callHandlerWithContext` and unlocked by a `defer` registered right after the lock -/
+theorem flow_handler_mutex : Ebu.Flow.handlerBracket = true := by decide +kernel
 
 end Ebu.Props.C07
